@@ -268,7 +268,8 @@ def check_batch4():
             fail("C19-lazy-lookups", "%d segment(s): terms_within generators created together and consumed later give %r (reverse order) / %r "
                  "(round robin); consumed one at a time: %r (probes %r)" % (len(cuts) + 1, lazy, inter, eager, probes))
     E0, E1, E2 = u"\U0001F600", u"\U0001F601", u"\U0001F64F"
-    vocab = [u"a" + E0 + u"zz", u"a" + E1 + u"c", u"abc", u"ab", u"a" + E0 + u"c", u"a" + E2, E0 + u"bc", u"abd" + E1, u"b", u"azc", u"a" + E0]
+    vocab = [u"a" + E0 + u"zz", u"a" + E1 + u"c", u"abc", u"ab", u"a" + E0 + u"c", u"a" + E2, E0 + u"bc", u"abd" + E1, u"b", u"azc", u"a" + E0,
+             u"a\U0010ffffzz", u"ab\U0010ffff"]      # the LAST code point: nothing comes after it (fix b9b91e2)
     probes = [(u"abc", 1), (u"abc", 2), (u"a" + E0 + u"c", 1), (u"a" + E1, 1), (E1 + u"bc", 1), (u"a" + E0 + u"zz", 2)]
     svocab = sorted(set(vocab))
     for a in svocab + [p_ for p_, _ in probes]:
